@@ -29,10 +29,18 @@ META = {
             "so they cannot observe whether a copy is lowered to the precompile or to MCOPY; the refuted shape (bound recomputed after "
             "a copy) is unpack_inlined_refuted. (4) A structured family of contracts moving values with >= 2 dynamic members through "
             "interface calls / abi_decode / raw returndata runs under every (generator, EVM target) pair, and every corpus contract of "
-            "a quick run does too. Partial: optimisation passes are not proved semantics preserving.",
+            "a quick run does too. (5) Theorems handover_table_covers_reentry / read_after_handover_sound / "
+            "store_before_handover_unobserved (Coq): the rows of the Venom effects table for call, delegatecall, staticcall, create, "
+            "create2, re-extracted from vyper/venom/effects.py on every run, contain everything foreign code can write / read in "
+            "the caller by re-entering it (a constructor is foreign code too), so a cell the table lets a pass carry across a "
+            "hand-over is unchanged by any foreign code; create_without_storage_write_refuted is the counter-model. (6) A family "
+            "crossing every hand-over builtin (16 forms) x caller state kind (storage, transient, balance) x 7 read/write shapes "
+            "with a reactor / library / child constructor that re-enters the caller runs under both generators, all levels, "
+            "flags and EVM targets. Partial: optimisation passes are not proved semantics preserving.",
     "level_note": "Trusted: Coq kernel + vm_compute; extraction of the pass tables by introspection of the imported modules; "
                   "pyrevm; the IR -> skeleton abstraction of tools/vlib/c02_rdsflow.py (evaluation order of compile_ir.py, labels "
-                  "entered with an unknown buffer state). Behavioural invariance is established per program by the differential only.",
+                  "entered with an unknown buffer state); the re-entry footprint may_write/may_read of coq/C02/Handover.v (one cell per "
+                  "effect kind; the specification of part 5). Behavioural invariance is established per program by the differential only.",
     "technique": "Coq finite exhaustive proof over regenerated pass tables + Coq-proved flow analysis over regenerated IR skeletons "
                  "+ N-way differential across compiler configurations",
 }
@@ -973,6 +981,269 @@ def part_dynret(ctx, cfgs):
     return n_cmp
 
 
+# ---------------------------------------------------------------------------------------------- N-way: hand-over x re-entry
+_HJOBS = None
+
+
+def _ho_one(args):
+    k, j = args
+    job, cfg = _HJOBS["jobs"][k], _HJOBS["cfgs"][j]
+    try:
+        from vlib import c02_handover as HO
+        return (k, j, "ok", HO.observe(job["src"], cfg, job["plan"], job["tra"]))
+    except Exception as e:
+        return (k, j, "exc", (type(e).__name__, str(e)[:300], D.raise_site(e)))
+
+
+def handover_jobs(ctx):
+    from vlib import c02_handover as HO
+    addrs = HO.addresses()
+    jobs = []
+    for tra in (True, False):
+        rng = ctx.rng(f"handover:{tra}")
+        # before Cancun (no transient storage) the quick tier keeps the two deciding shapes per (hand-over, state) pair
+        tier = ctx.tier if (tra or ctx.tier != "quick") else "quick-min"
+        for i, p in enumerate(HO.build_programs(rng, tier, tra, addrs[:3])):
+            p["name"] = f"handover/{'cancun+' if tra else 'pre-cancun'}.{i}"
+            p["plan"] = HO.make_plan(p, rng, 2 if ctx.tier == "quick" else 3)
+            jobs.append(p)
+    return jobs, addrs
+
+
+def handover_cfgs(ctx, jobs):
+    """configurations per program: the code generators side by side on one EVM target, a second Venom level on another
+    target, and (Cancun+ programs) one single-flag configuration rotating over the usable flags; thorough: every level on
+    every target plus every single flag"""
+    from vlib.configs import Config, USABLE_FLAGS
+    LV = {False: ["none", "gas", "codesize"], True: ["none", "gas", "codesize", "O3"]}
+    cfgs, work, names = [], [], {}
+
+    def add(k, c):
+        if c.name not in names:
+            names[c.name] = len(cfgs)
+            cfgs.append(c)
+        if (k, names[c.name]) not in work:
+            work.append((k, names[c.name]))
+    for k, job in enumerate(jobs):
+        evms = ["cancun", "prague"] if job["tra"] else list(R.PRE_CANCUN)
+        i = k + ctx.seed
+        if ctx.tier == "quick":
+            ea, eb = evms[i % len(evms)], evms[(i + 1) % len(evms)]
+            add(k, Config(False, LV[False][i % 3], ea))
+            add(k, Config(True, LV[True][i % 4], ea))
+            add(k, Config(True, LV[True][(i + 1 + i // 4) % 4], eb))
+            if job["tra"]:
+                add(k, Config(True, "gas", eb, flags=[USABLE_FLAGS[i % len(USABLE_FLAGS)]]))
+        else:
+            for e in evms:
+                for v in (False, True):
+                    for lvl in LV[v]:
+                        add(k, Config(v, lvl, e))
+            for f in USABLE_FLAGS:
+                add(k, Config(True, "gas" if k % 2 else "O3", evms[-1], flags=[f]))
+    return cfgs, work
+
+
+def _ho_calls_json(plan):
+    return [{kk: (vv.hex() if isinstance(vv, bytes) else vv) for kk, vv in c.items()} for c in plan]
+
+
+def _ho_calls_from_json(calls):
+    out = []
+    for c in calls:
+        c = dict(c)
+        for kk in ("salt", "raw"):
+            if kk in c:
+                c[kk] = bytes.fromhex(c[kk])
+        out.append(c)
+    return out
+
+
+def part_handover(ctx):
+    """every hand-over instruction x every kind of caller state the foreign code can reach by re-entering x the shapes in which
+    the caller touches that state on both sides of the hand-over (tools/vlib/c02_handover.py)"""
+    global _HJOBS
+    from vlib import c02_handover as HO
+    t0 = time.time()
+    jobs, addrs = handover_jobs(ctx)
+    cfgs, work = handover_cfgs(ctx, jobs)
+    _HJOBS = {"jobs": jobs, "cfgs": cfgs}
+    for evm in sorted({c.evm for c in cfgs}):        # auxiliary contracts once per target, inherited by the workers
+        for tra in (True, False):
+            if tra and evm in R.PRE_CANCUN:
+                continue
+            HO.aux_code(evm, tra)
+    out = {}
+    with mp.get_context("fork").Pool(6 if ctx.tier == "quick" else 4) as pool:
+        for k, j, st, o in pool.imap_unordered(_ho_one, work, chunksize=1):
+            out[(k, j)] = (st, o)
+    n_cmp = ok_calls = 0
+    crashes = {}
+    reported = set()
+    disagreeing = {}
+    cover = {}
+    for k, job in enumerate(jobs):
+        per = {}
+        for j, cfg in enumerate(cfgs):
+            if (k, j) not in out:
+                continue
+            st, o = out[(k, j)]
+            if st == "exc":
+                if o[0] not in D.BENIGN_REJECT:
+                    crashes.setdefault((o[0], "+".join(cfg.flags)), []).append((k, cfg, o[1], o[2] if len(o) > 2 else ""))
+                continue
+            per[cfg.name] = o
+            n_cmp += len(o["results"])
+            for c, r in zip(job["plan"], o["results"]):
+                if r[0] and "raw" not in c:
+                    ok_calls += 1
+        for name, hn, stt, shape, _v, _w in job["fns"]:
+            cover.setdefault((hn, stt), set()).add(shape)
+        groups = group_observations({n: (per[n]["deployed"], per[n]["results"], per[n]["state"]) for n in sorted(per)})
+        if len(groups) <= 1:
+            continue
+        a, b = groups[0][0], groups[1][0]
+        diff = R.first_difference(per[a], per[b]) or {}
+        # every test function on which some configuration deviates from the majority group
+        bad = []
+        for ci, c in enumerate(job["plan"]):
+            if "raw" not in c and any(per[n]["results"][ci] != per[a]["results"][ci] or
+                                      (per[n]["results"][ci + 1] != per[a]["results"][ci + 1] and
+                                       (ci == 0 or per[n]["results"][ci - 1] == per[a]["results"][ci - 1])) for n in per):
+                if c["name"] not in bad:
+                    bad.append(c["name"])
+        fn = job["plan"][diff["call"]]["name"] if "call" in diff else None
+        if fn == "s" and diff.get("call", 0) > 0:
+            fn = job["plan"][diff["call"] - 1]["name"]
+        if fn in (None, "s"):
+            fn = bad[0] if bad else None
+        ent = next((f for f in job["fns"] if f[0] == fn), None)
+        cls = f"{ent[1]}/{ent[2]}/{ent[3]}" if ent else "state"
+        for nme in bad:
+            e2 = next(f for f in job["fns"] if f[0] == nme)
+            disagreeing[f"{e2[1]}/{e2[2]}/{e2[3]}"] = disagreeing.get(f"{e2[1]}/{e2[2]}/{e2[3]}", 0) + 1
+        src, plan = job["src"], job["plan"]
+        if ent is not None:
+            # minimise: a contract with the one test function, called as in the plan
+            try:
+                single = HO.single_program(job, fn, addrs[:3])
+                splan = [c for i, c in enumerate(job["plan"]) if c["name"] == fn or (i and job["plan"][i - 1]["name"] == fn)]
+                ra = HO.observe(single["src"], parse_cfg_name(a), splan, job["tra"])
+                rb = HO.observe(single["src"], parse_cfg_name(b), splan, job["tra"])
+                d2 = R.first_difference(ra, rb)
+                if d2 is not None:
+                    src, plan, diff = single["src"], splan, d2
+            except Exception as e:
+                ctx.log(f"handover minimisation failed: {type(e).__name__}: {e}")
+        key = f"C02:handover:{cls}:{split_class2(groups)}"
+        fam = key.split("/")[0] + ":" + key.rsplit(":", 1)[1] if ent else key
+        if fam in reported or len(reported) >= 3:
+            continue
+        reported.add(fam)
+        ctx.violation("failing-input", f"configurations disagree on {job['name']} ({cls}): {groups[0][:2]} vs {groups[1][:2]}",
+                      {"family": "handover", "source": src, "transient": job["tra"], "groups": groups,
+                       "first_difference": {"a": a, "b": b, **diff}, "calls": _ho_calls_json(plan),
+                       "test_functions_disagreeing_in_this_program": bad[:20],
+                       "reactor_source": HO.REACTOR, "child_source": HO.CHILD, "library_source": HO.lib_src(job["tra"]),
+                       "how": "deploy (from 0x11..11, compiled legacy -O gas for the same EVM target) reactor_source, library_source, the "
+                              "blueprint of child_source, then source; give it 10**18+500 wei; send the calls (functions taking "
+                              "`initcode` get the init code of child_source); `check.py C02 --replay <this file>` does that",
+                       "expected": "the same status, return data, logs and final storage/balances under every configuration (C02): the "
+                                   "foreign code re-enters `poke`, so state read after the hand-over is the state it left"},
+                      key=key)
+    for (exc, fl), lst in crashes.items():
+        k, cfg, msg, site = lst[0]
+        report_crash(ctx, exc, cfg, msg, jobs[k]["src"], len(lst), site)
+    ctx.corr["handover"] = {"programs": len(jobs), "test_functions": sum(len(j["fns"]) for j in jobs),
+                            "handover_state_pairs": len(cover), "handover_kinds": len({h for h, _ in cover}),
+                            "shapes_per_pair_min": min((len(v) for v in cover.values()), default=0),
+                            "configurations": len(cfgs), "program_configuration_runs": len(work),
+                            "calls_compared": n_cmp, "successful_test_calls": ok_calls,
+                            "disagreeing_cases": disagreeing, "seconds": round(time.time() - t0, 1)}
+    return n_cmp
+
+
+def replay_handover(ctx):
+    """replay of a handover record against the real compiler (both recorded groups, first configuration of each)"""
+    import json
+    if not ctx.replay:
+        return False
+    try:
+        rec = json.load(open(ctx.replay))
+    except Exception:
+        return False
+    d = rec.get("detail", {})
+    if d.get("family") != "handover":
+        return False
+    import atexit
+    from vlib.common import EVIDENCE
+    from vlib import c02_handover as HO
+    ev = EVIDENCE / f"{ctx.pid}.json"
+    if ev.exists():
+        old = ev.read_bytes()
+        atexit.register(lambda: ev.write_bytes(old))
+    print(f"[replay] {rec.get('kind')} {rec.get('key')}: {rec.get('name')}")
+    plan = _ho_calls_from_json(d["calls"])
+    obs = {}
+    for g in d["groups"][:2]:
+        n = g[0]
+        try:
+            obs[n] = HO.observe(d["source"], parse_cfg_name(n), plan, d["transient"])
+            for c, r in list(zip(plan, obs[n]["results"]))[:8]:
+                print(f"[replay] {n}: {c['name']}(k={c.get('k')}) -> {'ok' if r[0] else 'REVERT'} {r[1][:80]} logs={len(r[2])}")
+        except Exception as e:
+            print(f"[replay] {n}: {type(e).__name__}: {str(e)[:300]}")
+    vals = [(o["results"], o["state"]) for o in obs.values()]
+    if len(vals) == 2 and vals[0] != vals[1]:
+        print("[replay] the two configurations STILL DISAGREE")
+        ctx.violation("failing-input", rec.get("name"), d, key=rec.get("key"))
+    else:
+        print("[replay] the two configurations agree now")
+    return True
+
+
+# ---------------------------------------------------------------------------------------------- hand-over rows of the effects table (Coq)
+HO_FILES = ["C02/Handover.v", "C02/HandoverProofs.v", "C02/GenHandoverTbl.v", "C02/PropsC02Handover.v"]
+
+
+def gen_efftable():
+    from vlib import c02_efftable as E
+    data = E.extract()
+    (COQ / "C02" / "GenHandoverTbl.v").write_text(E.render(data))
+    return data, E.missing(data)
+
+
+def part_efftable(ctx):
+    """Coq: handover_table_covers_reentry / read_after_handover_sound / store_before_handover_unobserved over the rows of
+    vyper/venom/effects.py re-extracted on this run.  Search when it breaks: the hand-over x re-entry family of this run."""
+    t0 = time.time()
+    try:
+        data, miss = gen_efftable()
+    except Exception as e:
+        ctx.violation("translator-rejected", f"cannot extract the hand-over rows of the effects table: {type(e).__name__}: {e}",
+                      {"error": str(e)[:500]})
+        return 0
+    b = ctx.coq_build_cached(HO_FILES)
+    if not b["ok"] and not miss and not (b.get("out") or "").strip():
+        time.sleep(2)
+        b = ctx.coq_build_cached(HO_FILES)
+    if not b["ok"]:
+        prior = [v for v in ctx.violations if v["kind"] == "failing-input" and (v.get("key") or "").startswith("C02:handover:")]
+        if not prior:
+            ctx.violation("theorem-broken", f"{b.get('failed_lemma') or 'handover_rows_checked'} in {b['file']}: the effects table rows of "
+                          "the hand-over instructions do not contain what re-entrant foreign code can read/write",
+                          {"theorem": "handover_table_covers_reentry", "file": b["file"], "missing_table_entries": miss,
+                           "rows": data, "coq_output": (b.get("out") or "")[-1200:]})
+    elif miss:
+        ctx.violation("correspondence-broken", "python mirror of the re-entry footprint disagrees with the Coq run",
+                      {"coq_ok": True, "python_missing": miss})
+    ctx.corr["efftable"] = {"rows": data, "missing": miss, "coq_ok": b["ok"],
+                            "failing_input_from_handover_family": (bool([v for v in ctx.violations if (v.get("key") or "").startswith("C02:handover:")])
+                                                                   if not b["ok"] else None),
+                            "seconds": round(time.time() - t0, 1)}
+    return 2 * len(data["writes"])
+
+
 # ---------------------------------------------------------------------------------------------- returndata flow (Coq)
 RDS_FILES = ["C02/RdsFlow.v", "C02/RdsFlowProofs.v", "C02/GenRdsSkel.v", "C02/PropsC02Rds.v"]
 
@@ -1157,6 +1428,8 @@ def run(ctx):
     from vlib.c01_replay import replay
     if replay_dynret(ctx):
         return
+    if replay_handover(ctx):
+        return
     if replay(ctx):
         return
     cfgs = configs(ctx.tier)
@@ -1168,6 +1441,11 @@ def run(ctx):
         n3 += part_dynret(ctx, cfgs)
     except Exception as e:
         ctx.violation("gate", f"dynamic-member family did not run: {type(e).__name__}: {e}", {"error": str(e)[:500]})
+    try:
+        n3 += part_handover(ctx)
+    except Exception as e:
+        ctx.violation("gate", f"hand-over x re-entry family did not run: {type(e).__name__}: {e}", {"error": str(e)[:500]})
+    n1 += part_efftable(ctx)
     n1 += part_rdsflow(ctx)
     ctx.corr["configs"] = [c.name for c in cfgs]
     ctx.corr["evaluations"] = n1 + n2 + n3
@@ -1191,3 +1469,8 @@ def prebuild(ctx):
         ctx.coq_build_cached(RDS_FILES)
     except Exception as e:
         ctx.log(f"prebuild of the returndata-flow part failed: {type(e).__name__}: {e}")
+    try:
+        gen_efftable()
+        ctx.coq_build_cached(HO_FILES)
+    except Exception as e:
+        ctx.log(f"prebuild of the hand-over table part failed: {type(e).__name__}: {e}")
